@@ -322,10 +322,78 @@ def run(cp: Compiled, bp: Any, inputs: dict[str, Any]) -> RunResult:
     return res
 
 
+_PRE: list[Any] = []
+_PATCHED = [False]
+
+
+def _patch_capture() -> None:
+    """Observe (not alter) the translation unit pytato hands to loopy's first
+    transformation (make_reduction_inames_unique): the kernel as pytato built it."""
+    if _PATCHED[0]:
+        return
+    import pytato.target.loopy.codegen as cg
+    real_lp = cg.lp
+    orig = real_lp.make_reduction_inames_unique
+
+    class _LP:
+        def __getattr__(self, name: str) -> Any:
+            return getattr(real_lp, name)
+
+        def make_reduction_inames_unique(self, t_unit: Any, *a: Any, **k: Any) -> Any:
+            _PRE[:] = [t_unit]
+            return orig(t_unit, *a, **k)
+    cg.lp = _LP()     # type: ignore[assignment]
+    _PATCHED[0] = True
+
+
 def generate(expr: Any, **kw: Any) -> Any:
-    """pt.generate_loopy with the harness target; wraps failures."""
+    """pt.generate_loopy with the harness target; wraps failures.  The returned bound
+    program carries ``vf_pre_t_unit``: the translation unit before loopy's first pass."""
     import pytato as pt
+    _patch_capture()
+    _PRE[:] = []
     try:
-        return pt.generate_loopy(expr, target=get_target(), **kw)
+        bp = pt.generate_loopy(expr, target=get_target(), **kw)
     except Exception as e:  # noqa: BLE001
         raise CodegenFailure("generate_loopy", e, str(e)) from e
+    try:
+        object.__setattr__(bp, "vf_pre_t_unit", _PRE[0] if _PRE else None)
+    except Exception:  # noqa: BLE001
+        pass
+    return bp
+
+
+def subst_arity_consistent(t_unit: Any) -> bool:
+    """Every invocation of a substitution rule in the kernel has the rule's arity."""
+    import dataclasses
+
+    import pymbolic.primitives as p
+    knl = t_unit.default_entrypoint
+    rules = {n: len(r.arguments) for n, r in knl.substitutions.items()}
+    ok = [True]
+
+    def walk(e: Any, called: bool = False) -> None:
+        if isinstance(e, p.Call) and isinstance(e.function, p.Variable) \
+                and e.function.name in rules:
+            if len(e.parameters) != rules[e.function.name]:
+                ok[0] = False
+            for c in e.parameters:
+                walk(c)
+            return
+        if isinstance(e, p.Variable) and e.name in rules and rules[e.name] != 0:
+            ok[0] = False
+        if isinstance(e, p.ExpressionNode):
+            for f in dataclasses.fields(e):  # type: ignore[arg-type]
+                v = getattr(e, f.name)
+                if isinstance(v, tuple):
+                    for c in v:
+                        walk(c)
+                else:
+                    walk(v)
+    for insn in knl.instructions:
+        ex = getattr(insn, "expression", None)
+        if ex is not None:
+            walk(ex)
+    for r in knl.substitutions.values():
+        walk(r.expression)
+    return ok[0]
